@@ -34,6 +34,11 @@ func c06Universe(rnd *rand.Rand, zones uint64) []c06Key {
 			}
 		}
 	}
+	// request-URIs longer than the largest key the badger store takes (65000 bytes), differing in the last byte only
+	giant := "/giant/" + strings.Repeat("g", 66000)
+	for _, m := range []string{"GET", "HEAD"} {
+		keys = append(keys, c06Key{m, "a.example", giant + "a"}, c06Key{m, "a.example", giant + "b"})
+	}
 	// forced collisions: many keys of one shard
 	target := uint64(rnd.Intn(int(zones)))
 	n := 0
@@ -48,7 +53,7 @@ func c06Universe(rnd *rand.Rand, zones uint64) []c06Key {
 }
 
 func c06(r *hx.Run) {
-	r.Rule = "request targets with raw non-UTF-8 bytes differing only inside such runs on the store-backed cache (fetched, hit, evicted, reloaded); every resource carries the same strong ETag, every seventh a body of exactly 1500 bytes; a quarter of the requests carry X-Forwarded-Host/Forwarded/X-Original-Url headers; universe of 160 near-identical keys (paths differing by a slash/digit/case/escape, queries differing in one byte or only by '?', five hosts incl. one with a port and one differing in case only, GET vs HEAD, 1.8 kB URIs differing in the last byte) plus 60 keys pre-selected with MemHash to share one shard; caches of size 8, 24 and 64 plus one of size 16 backed by a store (constant eviction, re-creation and reload from the store; lifetime 1 s on the real clock, so entries are also refetched after expiry during the run); 32 concurrent clients with hot/cold mix; every 2xx response must echo exactly the requester's method, Host and request-URI (body identification line and echo headers written by the origin). Plus a dispatcher-level run over one million generated keys checking entry identity. Non-trivial/distinct = distinct key that was answered at least once after having been evicted."
+	r.Rule = "request targets with raw non-UTF-8 bytes differing only inside such runs on the store-backed cache (fetched, hit, evicted, reloaded); every resource carries the same strong ETag, every seventh a body of exactly 1500 bytes; a quarter of the requests carry X-Forwarded-Host/Forwarded/X-Original-Url headers; universe of 160 near-identical keys (paths differing by a slash/digit/case/escape, queries differing in one byte or only by '?', five hosts incl. one with a port and one differing in case only, GET vs HEAD, 1.8 kB URIs differing in the last byte, 66 kB URIs - beyond the largest key the badger store takes - differing in the last byte) plus 60 keys pre-selected with MemHash to share one shard; caches of size 8, 24 and 64 plus one of size 16 backed by a store (constant eviction, re-creation and reload from the store; lifetime 1 s on the real clock, so entries are also refetched after expiry during the run); 32 concurrent clients with hot/cold mix; every 2xx response must echo exactly the requester's method, Host and request-URI (body identification line and echo headers written by the origin). Plus a dispatcher-level run over one million generated keys checking entry identity. Non-trivial/distinct = distinct key that was answered at least once after having been evicted."
 	r.Assume = []string{"-race build (implies checkptr for the zero-copy key string)", "the origin echoes what it saw; a mismatch between echo and request can only come from pike serving another key's entry"}
 	rnd := rand.New(rand.NewSource(r.Seed))
 	sizes := []int{8, 24, 64, 16}
